@@ -24,6 +24,9 @@
  *   c <loc>=<v>                  shared state changed by the step (diff against a shadow copy, sched_wrap_rb.c)
  *   end <0|1|2>                  all done / deadlock / step limit
  *   fin <wpt> <rpt> <sem> <hash> final shared state
+ *   drain <rc> [<hex>]           (script line `drain', after a run that ended with 0) main thread: 64 extra tokens
+ *                                are posted in semaphore mode, then qb_rb_chunk_read(8192 bytes, timeout 0) is
+ *                                repeated until it fails: what is still in the ring, in order
  */
 #include "os_base.h"
 #include <stdio.h>
@@ -209,6 +212,18 @@ int main(void)
 		} else if (line[0] == 'w' || (line[0] == 'r' && line[1] == ' ')) {
 			int t = line[0] == 'w' ? 0 : 1;
 			if (nprog[t] < MAXCALLS && parse_call(line, &prog[t][nprog[t]])) nprog[t]++;
+		} else if (strncmp(line, "drain", 5) == 0) {
+			int i;
+			unsigned char *buf = malloc(8192);
+			if (!nosem) for (i = 0; i < 64; i++) sem_post(&rbA->shared_hdr->posix_sem);
+			for (i = 0; i < 100; i++) {
+				ssize_t rc = qb_rb_chunk_read(rbB, buf, 8192, 0);
+				printf("drain %zd", rc);
+				print_hex(buf, rc);
+				putchar('\n');
+				if (rc < 0) break;
+			}
+			free(buf);
 		} else if (strncmp(line, "run", 3) == 0) {
 			char *s = line + 3;
 			long steps = 0;
